@@ -264,3 +264,19 @@ func recursiveSearchFuncs(c *Ctx, m *searchModel) []*ssa.Function {
 	}
 	return res
 }
+
+// rootFact reports whether the path established that the node is the root of the search: a true
+// comparison of the board's ply with a field of the run object (set once by the public Search
+// method), or a true boolean parameter/field named like "root".
+func rootFact(st *absint.State) (isRoot bool, known bool) {
+	for _, f := range st.Facts {
+		s := vstrOf(f.Cond)
+		switch {
+		case strings.HasPrefix(s, "==(") && strings.Contains(s, "Ply(") && strings.Contains(s, "(m)") || strings.HasPrefix(s, "==(") && strings.Contains(s, "Ply(") && strings.Contains(strings.ToLower(s), "root"):
+			return f.Truth, true
+		case strings.ToLower(s) == "root" || strings.ToLower(s) == "isroot":
+			return f.Truth, true
+		}
+	}
+	return false, false
+}
